@@ -658,3 +658,24 @@ def make_node_class(fields_spec, base=ASTNode):
         else:
             fl.append((fname, ann, dataclasses.field(default=default, init=False)))
     return dataclasses.make_dataclass(name, fl, bases=(base,), frozen=True)
+
+
+def make_node_class_flags(name, fields_spec, base=ASTNode):
+    """fields_spec: list of (name, annotation object, init, compare, kw_only, has_default, default); the class name
+    is given by the caller (the same name may be used for several classes)"""
+    fl = []
+    for fname, ann, init, compare, kw_only, has_default, default in fields_spec:
+        kw = {"compare": compare}
+        if not init:
+            kw.update(init=False, default=default)
+        else:
+            if kw_only:
+                kw["kw_only"] = True
+            if has_default:
+                kw["default"] = default
+        fl.append((fname, ann, dataclasses.field(**kw)))
+    # the same thing as `@dataclass(frozen=True) class <name>(base): f: ann = field(...)` written in this module
+    # (pyoak refuses a second class of the same name only when it comes from another module)
+    ns = {"__module__": __name__, "__qualname__": name, "__annotations__": {f: a for f, a, _ in fl}}
+    ns.update({f: d for f, _, d in fl})
+    return dataclasses.dataclass(frozen=True)(type(name, (base,), ns))
